@@ -33,12 +33,14 @@ use wow_adt::chunks::{MampChunk, MfboChunk, MtxfChunk, MtxpChunk, TextureHeightP
 use wow_adt::{AdtBuilder, AdtVersion, DoodadPlacement, WmoPlacement};
 
 pub fn seed_names(thorough: bool) -> Vec<String> {
-    let mut v = vec!["tbc-root-mclq".to_string(), "wotlk-root-mh2o".to_string()];
+    // quick: a pre-Cataclysm root that carries both water encodings (MH2O and legacy MCLQ), and a
+    // split texture file
+    let mut v = vec!["wotlk-root-mh2o".to_string(), "mop-tex0".to_string()];
     if thorough {
+        v.push("tbc-root-mclq".into());
         v.push("vanilla-root".into());
         v.push("mop-root".into());
         v.push("cata-split-root".into());
-        v.push("mop-tex0".into());
         v.push("cata-obj0".into());
     }
     v
@@ -81,7 +83,7 @@ fn spec(name: &str) -> Spec {
     match name {
         "vanilla-root" => Spec { version: AdtVersion::VanillaLate, mccv: true, mclq: true, ..base },
         "tbc-root-mclq" => Spec { version: AdtVersion::TBC, mccv: true, mclq: true, mfbo: true, ..base },
-        "wotlk-root-mh2o" => Spec { version: AdtVersion::WotLK, mccv: true, mfbo: true, mh2o: true, mtxf: true, ..base },
+        "wotlk-root-mh2o" => Spec { version: AdtVersion::WotLK, mccv: true, mclq: true, mfbo: true, mh2o: true, mtxf: true, ..base },
         "mop-root" | "mop-tex0" => Spec {
             version: AdtVersion::MoP,
             mccv: true,
@@ -772,6 +774,12 @@ fn inventory(s: &mut Seed, mcnk_has_header: bool) {
                 s.field_ex(q + 16, 4, "offset", nm("ofs_exists_bitmap"), p, 1, None);
                 s.field_ex(q + 20, 4, "offset", nm("ofs_vertex_data"), p, 1, None);
             }
+        }
+    }
+    if let Some((o, tot)) = find("MFBO") {
+        if tot >= 8 + 36 {
+            s.field(o + 8, 2, "index", "MFBO.max_plane[0]");
+            s.field(o + 8 + 18, 2, "index", "MFBO.min_plane[0]");
         }
     }
     if let Some((o, tot)) = find("MTXF") {
